@@ -158,7 +158,8 @@ def sib_add(ctx: Ctx) -> List[Ob]:
         from .util import resolve_expr as _rx
 
         rest = sorted(("" if pol else "not ") + _rename(norm(_rx(ctx, f, st, e, keep=[srct])), {srct: "SRC"}) for e, pol in pcs
-                      if e is not atom and any(isinstance(x, ast.Name) and x.id == srct for x in ast.walk(e)))
+                      if e is not atom and any(isinstance(x, ast.Name) and x.id == srct for x in ast.walk(e))
+                      and not norm(e).startswith("isinstance("))  # (the dispatch on the argument's type is not part of the refusal)
         shapes.append(rest)
     ok = shapes[0] == shapes[1]
     obs.append(ctx.ob("SIB-ADD", ["C03"], fa, "both add_child implementations refuse the same condition", ra[1], ok,
@@ -286,6 +287,15 @@ def _verdicts_of(ctx: Ctx, f: Func, node: ast.AST, resv: str) -> Tuple[Set[str],
     return out, rest
 
 
+def _is_rec(x: ast.AST, rec: str, lv: str) -> bool:
+    """`rec(lv)` (closure) or `lv.rec(...)` (method): the walker recursing on the loop variable."""
+    if not isinstance(x, ast.Call):
+        return False
+    if isinstance(x.func, ast.Name) and x.func.id == rec and x.args and norm(x.args[0]) == lv:
+        return True
+    return isinstance(x.func, ast.Attribute) and x.func.attr == rec and norm(x.func.value) == lv
+
+
 def _filter_table(ctx: Ctx, f: Func, lp: ast.For, kind: str, N: Dict[str, str]) -> Dict[str, Set[str]]:
     """verdict class -> set of actions the loop body performs for it."""
     from ..pat import match
@@ -296,7 +306,7 @@ def _filter_table(ctx: Ctx, f: Func, lp: ast.For, kind: str, N: Dict[str, str]) 
 
     def add(node: ast.AST, flag: str, need_rec: Optional[bool] = None) -> None:
         vs, rest = _verdicts_of(ctx, f, node, resv)
-        rec_conds = [(pol) for e, pol in rest if match(f"{N['rec']}({lv})", e) is not None]
+        rec_conds = [(pol) for e, pol in rest if _is_rec(e, N['rec'], lv)]
         if need_rec is not None:
             if not rec_conds or rec_conds[0] is not need_rec:
                 return
@@ -309,7 +319,7 @@ def _filter_table(ctx: Ctx, f: Func, lp: ast.For, kind: str, N: Dict[str, str]) 
     for x in inside:
         if isinstance(x, ast.Raise):
             add(x, "stops")
-        if isinstance(x, ast.Call) and match(f"{N['rec']}({lv})", x) is not None:
+        if _is_rec(x, N['rec'], lv):
             add(x, "descends")
         if isinstance(x, (ast.Continue, ast.Break, ast.Return)) and kind == "copy":
             add(x, "BUG:leaves the loop body early")
@@ -422,7 +432,8 @@ def sib_filter(ctx: Ctx) -> List[Ob]:
         f = m.func(q)
         ok = False
         for n in iter_own(f.node):
-            if isinstance(n, ast.Try) and any(norm(st) == f"_visit({'self' if q == 'Node.filter' else 'other'})" for st in n.body):
+            wname = (fi if q == "Node.filter" else fc).name
+            if isinstance(n, ast.Try) and any(isinstance(st, ast.Expr) and isinstance(st.value, ast.Call) and norm(st.value.func).split(".")[-1] == wname for st in n.body):
                 ok = any(h.type is not None and norm(h.type) == "StopTraversal" and all(isinstance(s, ast.Pass) for s in h.body) for h in n.handlers)
         obs.append(ctx.ob("SIB-FILTER", ["C08"], f, "a stop signal ends the scan at the top level and keeps what was done", None, ok,
                           "" if ok else "StopTraversal must be caught once, outside the recursion, without undoing anything"))
